@@ -1,7 +1,7 @@
 (** History checker for the exhaustive vector index kinds (C01, C02, C13, C14, C06 vector part). *)
 From Coq Require Import ZArith List Bool.
 From Comet Require Import Base.FBits Base.Parse Base.Sorting Check.Common.
-From Comet Require Import Model.Distance Model.Limiter Model.Aggregation Model.KMeans Model.VecIndex.
+From Comet Require Import Model.Distance Model.Limiter Model.Aggregation Model.KMeans Model.VecIndex Model.Format Model.Codecs.
 Import ListNotations.
 Open Scope Z_scope.
 
@@ -20,7 +20,9 @@ Inductive vop :=
 | OFlush
 | OSearch (rq : request) (err : Z) (out : list (Z * Z))
 | OTrain (vs : list vec) (err : Z)
-| ODump (st : vstate).
+| ODump (st : vstate)
+| OWrite (bm bytes : list Z) (n : Z)
+| OReload (bytes : list Z) (err n : Z).
 
 Definition pvop : P vop :=
   t <- pz ;;
@@ -34,6 +36,8 @@ Definition pvop : P vop :=
      ls <- plist (plist (id <- pz ;; v <- pvec ;; c <- pzs ;; ret {| e_id := id; e_vec := v; e_code := c |})) ;;
      del <- pzs ;;
      ret (ODump {| st_trained := tr; st_centroids := cs; st_codebooks := bs; st_lists := ls; st_deleted := del |}))
+  else if t =? 7 then (bm <- pzs ;; b <- pzs ;; n <- pz ;; ret (OWrite bm b n))
+  else if t =? 8 then (b <- pzs ;; e <- pz ;; n <- pz ;; ret (OReload b e n))
   else (fun _ => None).
 
 (** ---- structural comparison (verif snapshot) ---- *)
@@ -174,6 +178,24 @@ Definition step_check (p : params) (h : hstate) (o : vop) : hstate + list Z :=
       let '(s', e) := vtrain_op p s vs in
       if e =? err then nextc s' (h_live h) 0
       else inr (verdict false (Bool.eqb (e =? 0) (err =? 0)) [h_i h; e])
+  | OWrite bm bytes n =>
+      (* WriteTo flushes the source, then emits the stream *)
+      let s' := vflush_op s in
+      let mb := encode (fmt_vec p) (to_val p bm s') in
+      let framing := match decode (fmt_vec p) bytes with Some (_, []) => true | _ => false end in
+      if list_eqb mb bytes && (n =? Z.of_nat (length bytes)) then nextc s' (h_live h) 0
+      else inr (verdict false (framing && (n =? Z.of_nat (length bytes))) [h_i h; -7; Z.of_nat (length mb)])
+  | OReload bytes err n =>
+      match decode (fmt_vec p) bytes with
+      | Some (v, []) =>
+          match of_val p v with
+          | Some s' =>
+              if (err =? 0) && (n =? Z.of_nat (length bytes)) then nextc s' (h_live h) 0
+              else inr (verdict false false [h_i h; -8])
+          | None => inr (verdict false (err =? 0) [h_i h; -81])
+          end
+      | _ => inr (verdict false (err =? 0) [h_i h; -82])
+      end
   | ODump im =>
       if state_eqb s im then
         inl {| h_model := s; h_live := h_live h; h_i := h_i h + 1; h_weak := h_weak h; h_impl := Some im |}
